@@ -53,10 +53,7 @@ Definition C20_cholesky_statement : Prop :=
     (forall y, wfvR d y -> mvmulR C (mvmulR (transpR C) y) = mvmulR M y) ->
     vsumsqR (mvmulR (@cfm_chol ROps C) x) = quadformR M x.
 Theorem C20_cholesky : C20_cholesky_statement.
-Proof.
-  intros d C M x Hne HL HC Hx HM. unfold cfm_chol, quadform.
-  rewrite (transp_factor_form d C x Hne HL HC Hx), (HM x Hx). reflexivity.
-Qed.
+Proof. exact cfm_chol_form. Qed.
 Print Assumptions C20_cholesky.
 (* Not mechanised: that numpy's Cholesky factor satisfies C C^T = M, and the pseudo-inverse from an
    eigen-decomposition, satisfy their equations only per run (exact-rational certificates). *)
